@@ -34,16 +34,22 @@ def run (enc : Enc) (conv : Conv) (ch : Nat) : Option (List Peak) → Int → Li
   | pk, _, [] => pk
   | pk, wpos, (ty, data) :: cs => run enc conv ch (upd pk enc conv ch wpos ty data) (wpos + (data.length : Int) / ch) cs
 
+/-- the same under the rules before the repairs (`Sf.peakUpdateOld`) -/
+def updOld (pk : Option (List Peak)) (enc : Enc) (conv : Conv) (ch : Nat) (wpos : Int) (ty : Ty) (vals : List Int) :
+    Option (List Peak) :=
+  peakUpdateOld { store := 0, mode := .w, container := .wav, enc := enc, big := false, ch := ch, sr := 0, fmtWord := 0,
+                  frames := 0, lastOp := .w, peak := pk, conv := conv, wpos := wpos } ty vals
+
+def runOld (enc : Enc) (conv : Conv) (ch : Nat) : Option (List Peak) → Int → List (Ty × List Int) → Option (List Peak)
+  | pk, _, [] => pk
+  | pk, wpos, (ty, data) :: cs => runOld enc conv ch (updOld pk enc conv ch wpos ty data) (wpos + (data.length : Int) / ch) cs
+
 /-! ## the chunk -/
 
 inductive Kind | wavLE | wavBE | aiff | caf
 deriving Repr, DecidableEq, Inhabited
 
 def u64be (v : Int) : List Byte := beBytes 8 (wrapU 64 v)
-
-/-- the `f` of psf_binheader_writef goes through float32_le_write / float32_be_write, which leave the zeroed field
-    untouched when `fabs (in) < 1e-30` (0x0DA2425F is the largest binary32 below the double 1e-30) -/
-def wrF32 (b : Nat) : Nat := if b % 2 ^ 31 < 0x0DA24260 then 0 else b
 
 /-- wavlike_write_peak_chunk / aiff_write_header / caf_write_header: timestamp = the harness' pinned clock,
     CAF edit count 0.  `'t8'` in the WAV/AIFF format strings writes the low 32 bits of the 64-bit position. -/
@@ -126,29 +132,33 @@ def calcLoop : Nat → H → Store → Acc → H × Store × Acc
     if r.2.2.ret ≤ 0 then (r.1, r.2.1, a)
     else calcLoop fuel r.1 r.2.1 (a.step h.ch ((r.2.2.data.take r.2.2.ret.toNat).map Int.toNat))
 
-/-- psf_calc_signal_max / psf_calc_max_all_channels as reached through sf_command, on a handle that can read
-    (`mode ≠ w`; in write mode `psf->read_double` is NULL and the command fails with SFE_UNIMPLEMENTED). -/
-def stepCalc (h : H) (s : Store) (normalize : Bool) : H × Store × Acc :=
+/-- first part of psf_calc_signal_max / psf_calc_max_all_channels as reached through sf_command, on a handle that can read
+    (`mode ≠ w`; in write mode `psf->read_double` is NULL and the command fails with SFE_UNIMPLEMENTED): clear the error,
+    save and set norm_double, remember the position(s), rewind.  On a read/write handle only the read pointer is moved
+    (`SEEK_SET | SFM_READ`, repair of KF-C18-CALC-RDWR-BLOCK).  Result: handle, store, saved flag, read position, position. -/
+def calcPre (h : H) (s : Store) (normalize : Bool) : H × Store × Bool × Int × Int :=
   let h := { h with error := 0 }                                  -- VALIDATE_SNDFILE_AND_ASSIGN_PSF (…, 1)
   let save := h.conv.normD                                        -- sf_command (SFC_GET_NORM_DOUBLE)
   let c := stepCmdFlag h s 0x1012 (if normalize then 1 else 0)    -- sf_command (SFC_SET_NORM_DOUBLE, normalize)
-  let (h, s) := (c.1, c.2.1)
-  let readPosition := h.rpos
-  -- position = (mode == SFM_RDWR) ? write_current : sf_seek (psf, 0, SEEK_CUR)
-  let (h, s, position) := if h.mode == .rw then (h, s, h.wpos) else
-    let r := stepSeek h s 0 1
-    (r.1, r.2.1, r.2.2.ret)
-  let r := stepSeek h s 0 0                                       -- sf_seek (psf, 0, SEEK_SET)
-  let (h, s) := (r.1, r.2.1)
-  let (h, s, acc) := calcLoop (h.frames.toNat + 1) h s { all := (List.replicate h.ch 0, 0) }
-  let (h, s) := if h.mode == .rw then
-      let r1 := stepSeek h s position 0x20                        -- SEEK_SET | SFM_WRITE
-      let r2 := stepSeek r1.1 r1.2.1 readPosition 0x10            -- SEEK_SET | SFM_READ
-      (r2.1, r2.2.1)
-    else
-      let r1 := stepSeek h s position 0
-      (r1.1, r1.2.1)
-  let c := stepCmdFlag h s 0x1012 (if save then 1 else 0)         -- sf_command (SFC_SET_NORM_DOUBLE, save_state)
-  (c.1, c.2.1, acc)
+  let readPosition := c.1.rpos
+  if c.1.mode == .rw then
+    let r := stepSeek c.1 c.2.1 0 0x10                            -- sf_seek (psf, 0, SEEK_SET | SFM_READ)
+    (r.1, r.2.1, save, readPosition, c.1.wpos)
+  else
+    let t := stepSeek c.1 c.2.1 0 1                               -- position = sf_seek (psf, 0, SEEK_CUR)
+    let r := stepSeek t.1 t.2.1 0 0                               -- sf_seek (psf, 0, SEEK_SET)
+    (r.1, r.2.1, save, readPosition, t.2.2.ret)
+
+/-- last part: seek back (read/write handle: the read pointer only), restore norm_double -/
+def calcPost (h : H) (s : Store) (save : Bool) (readPosition position : Int) : H × Store :=
+  let r := if h.mode == .rw then stepSeek h s readPosition 0x10 else stepSeek h s position 0
+  let c := stepCmdFlag r.1 r.2.1 0x1012 (if save then 1 else 0)   -- sf_command (SFC_SET_NORM_DOUBLE, save_state)
+  (c.1, c.2.1)
+
+def stepCalc (h : H) (s : Store) (normalize : Bool) : H × Store × Acc :=
+  let p := calcPre h s normalize
+  let l := calcLoop (p.1.frames.toNat + 1) p.1 p.2.1 { all := (List.replicate p.1.ch 0, 0) }
+  let q := calcPost l.1 l.2.1 p.2.2.1 p.2.2.2.1 p.2.2.2.2
+  (q.1, q.2, l.2.2)
 
 end Sf.Peak
